@@ -20,7 +20,10 @@ from ..symx import L, assume, choose, real
 
 CAR = AutowareLabel.CAR
 ROTS = {"0": (1, 0, 0, 0), "90": (1, 0, 0, 1), "53": (2, 0, 0, 1), "-23": (5, 0, 0, -1), "127": (1, 0, 0, 2),
-        "180": (0, 0, 0, 1)}
+        "180": (0, 0, 0, 1),
+        # boxes on a slope / banked (pitch, roll): the footprint is the ground projection of the rotated rectangle, the
+        # vertical extent stays centre +- height / 2
+        "pitched": (20, 0, 1, 4), "rolled": (20, 2, 0, -5)}
 SIZE = (2.0, 4.5, 1.6)  # width, length, height
 MARGIN = Fraction(1, 10**6)
 
@@ -43,10 +46,12 @@ def cloud(points):
 
 
 def local(p, c, rot):
-    """box-local coordinates R^-1 (p - c)"""
-    R = M2(ROTS[rot])
+    """footprint coordinates A^-1 (p - c), A = the x/y block of the rotation (its inverse is the transpose for a yaw)"""
+    A = M2(ROTS[rot])
+    det = A[0][0] * A[1][1] - A[0][1] * A[1][0]
+    inv = [[A[1][1] / det, -A[0][1] / det], [-A[1][0] / det, A[0][0] / det]]
     dx, dy = p[0] - c[0], p[1] - c[1]
-    return (build.const(R[0][0]) * dx + build.const(R[1][0]) * dy, build.const(R[0][1]) * dx + build.const(R[1][1]) * dy)
+    return (build.const(inv[0][0]) * dx + build.const(inv[0][1]) * dy, build.const(inv[1][0]) * dx + build.const(inv[1][1]) * dy)
 
 
 def strictly_inside(p, c, rot, scale, size=SIZE):
@@ -256,6 +261,7 @@ def obligations(pid, tier):
     crop = [dict(rot=r, scale=s, npts=1, cols=c) for r in rots for s in (("1", "1/2", "5/4") if quick else
                                                                         ("1", "1/2", "5/4", "2", "1/10"))
             for c in ((3,) if (quick and s != "1") else (3, 4))]
+    crop += [dict(rot=r, scale=sc, npts=1, cols=3) for r in ("pitched", "rolled") for sc in ("1", "5/4")]
     if not quick:
         crop += [dict(rot=r, scale="1", npts=2, cols=3) for r in ("0", "53", "127")]
     prism = [dict(shape=s, npts=1) for s in ("triangle", "quad", "pentagon", "quad_cw")]
@@ -303,7 +309,7 @@ def meta(pid):
         "outside": ["points within 1e-6 of a box / prism surface (the statement excludes boundary points)",
                     "symbolic scale factors (concrete set only: a symbolic scale makes the edge interpolation non-linear)",
                     "large clouds (the uint8 winding counter is executed by real numpy on every path, wrap-around "
-                    "included)", "roll/pitch"],
+                    "included)", "roll/pitch beyond the two tilted orientations of crop_exact"],
         "stand_ins": ["numpy proxy; point clouds are object arrays whose comparisons fork into concrete masks",
                       "pyquaternion -> Rot (exact)", "shapely -> ConvexPolygon"],
         "assumptions": ["positive box size", "non-detection prisms are convex"],
